@@ -13,7 +13,8 @@ from . import common
 ID = "C15"
 LEVEL = "exploration"
 RULE = ("each run: a generated stream (or, for hex, any generated input) rendered into one container with seeded "
-        "noise, 30% with one container fault; tasks: front-end decode, Binary decode of the carried bytes, Auto decode; "
+        "noise, 30% with one container fault, 35% of the streams with 1-2 faulted messages (size / length / medium faults, "
+        "so pcapng trimming and runt skipping see inconsistent size fields); tasks: front-end decode, Binary decode of the carried bytes, Auto decode; "
         "15% of runs: a short string over {0,a,F,space,LF,+,-,_,x,g} for the hex scanner; non-trivial = the front-end's "
         "events/outcome were compared with the direct decode (or ValueError expected); distinct = distinct container bytes")
 REAL = ["tpmstream.io.hex.marshal", "tpmstream.io.swtpm_log.marshal", "tpmstream.io.pcapng.marshal (+ dpkt)",
@@ -41,13 +42,40 @@ def make_case(i, rng, tier):
     root = inp["root"]
     bounds = inp.get("bounds") or [0, len(data)]
     fault = None
+    mfaults = []
+    if root == model.STREAM and rng.random() < 0.35 and len(bounds) > 1:
+        # malformed traffic in a well-formed container: faults on individual messages (the capture tool is pointed at
+        # broken traffic most of the time); the container must still deliver exactly the bytes it carries
+        from .. import faults as F
+        msgs = [data[a:b] for a, b in zip(bounds, bounds[1:])]
+        for _ in range(rng.randint(1, 2)):
+            j = rng.randrange(len(msgs))
+            meta = inp["metas"][j]
+            mroot = "Command" if meta["kind"] == "command" else "Response"
+            om = model.decode(mroot, msgs[j], cc=meta["cc"], enc=meta["enc"])
+            r = rng.random()
+            if r < 0.45:
+                f = F.fault_size(msgs[j], om, rng)
+                f = (f[0], [f[1]]) if f else None
+            elif r < 0.6:
+                f = F.fault_trunc(msgs[j], om, rng) if rng.random() < 0.5 else F.fault_append(msgs[j], om, rng)
+                f = (f[0], [f[1]]) if f else None
+            else:
+                f = F.apply_random(msgs[j], om, rng, sorted(F.MEDIUM), rng.randint(1, 2))
+            if f and f[0] is not None:
+                msgs[j] = f[0]
+                mfaults += [dict(x, msg=j) for x in f[1]]
+        data = b"".join(msgs)
+        bounds = [0]
+        for m_ in msgs:
+            bounds.append(bounds[-1] + len(m_))
     if container == "hex":
         blob = medium.write_hex(data, rng)
     elif container == "swtpm":
         blob = medium.write_swtpm_log(data, bounds, rng)
     else:
         blob, meta = medium.write_pcapng([data[a:b] for a, b in zip(bounds, bounds[1:])], rng)
-    if container in ("hex", "swtpm") and rng.random() < 0.3 and data:
+    if container in ("hex", "swtpm") and not mfaults and rng.random() < 0.3 and data:
         ends = medium.ref_hex_pair_ends(blob) if container == "hex" else medium.ref_swtpm_pair_ends(blob)
         j = rng.randrange(len(ends))
         e = ends[j]                      # index just after the 2nd digit of byte j
@@ -70,14 +98,16 @@ def make_case(i, rng, tier):
                  source=rng.choice(("bytes", "counting", "list", "gen", "simfile")), chunks=[rng.choice((1, 3, 7, 64))])
     tasks = [front]
     if fault is None:
-        tasks.append(common.spec("direct", root, data, inp["cc"], inp["enc"], strict=strict))
+        carried = medium.ref_pcapng_carried(blob) if container == "pcapng" else data
+        tasks.append(common.spec("direct", root, carried, inp["cc"], inp["enc"], strict=strict))
         starts_with_pair = len(blob) >= 2 and all(c in b"0123456789abcdefABCDEF" for c in blob[:2])
         if root == model.STREAM and (container == "pcapng" or (container == "hex" and starts_with_pair)):
             tasks.append(dict(front, id="auto", front="auto", source="bytes"))
         if root == model.STREAM and rng.random() < 0.3:
-            tasks.append(dict(common.spec("autobin", root, data, None, None, strict=strict), front="auto"))
+            tasks.append(dict(common.spec("autobin", root, carried, None, None, strict=strict), front="auto"))
     tasks, sched = common.perturb(rng, tasks, p_by=0.1)
-    return {"input": {"label": inp["label"], "container": container, "fault": fault}, "tasks": tasks, "schedule": sched}
+    return {"input": {"label": inp["label"], "container": container, "fault": fault, "message_faults": mfaults},
+            "tasks": tasks, "schedule": sched}
 
 
 def check(case):
@@ -89,6 +119,11 @@ def check(case):
     label = "%s in %s%s" % (case["input"]["label"], cont, " with %s" % fault if fault else "")
     blob = bytes.fromhex(tf.spec["data"])
     res.count("container:" + cont)
+    for mf in case["input"].get("message_faults") or ():
+        res.count("fault:message-" + mf["kind"])
+    if case["input"].get("message_faults"):
+        res.count("malformed-traffic-in-container:" + cont)
+        label += " carrying malformed traffic %s" % [(m_["kind"], m_.get("path"), m_.get("new")) for m_ in case["input"]["message_faults"]]
     if fault:
         res.count("fault:container-" + fault["kind"])
     # reference reading of the container
